@@ -7,7 +7,8 @@ Emits coq/Gen/Gen_codec.v with one `Definition` per fact:
   attribute names (written and read side separately), the marker of empty collections (written and
   compared side), which member supplies the class name (self[0] / self[-1]), whether from_file
   iterates sorted(fp.keys()), name and position of the time column of DropletTrack.data and the
-  names used when reading it back, default dataset keys.
+  names used when reading it back, default dataset keys, the check of DropletTrack.data that rejects
+  members with differing dtypes (and the error it raises).
 
 Fail closed: anything that does not have the expected shape raises TranslateError.  The matching is
 by pattern inside the named functions (not by whole-body comparison), so renaming locals, adding
@@ -277,6 +278,53 @@ def _track_data(fn: ast.FunctionDef, where: str) -> dict:
     return {"time_w": name_box[0], "time_first": first_dtype}
 
 
+def _track_guards(fn: ast.FunctionDef, where: str) -> dict:
+    """DropletTrack.data: the `if ...: raise` statements before the rows are filled.  Expected: the class check
+    (`len(classes) > 1`) followed by at most one layout check
+    `if any(d.data.dtype != d0.data.dtype for d in self.droplets): raise E(...)`.  Any other raising `if` is
+    rejected (fail closed).  Returns the exception of the layout check (None if there is no such check)."""
+    guards = [n for n in ast.walk(fn) if isinstance(n, ast.If)
+              and any(isinstance(b, ast.Raise) for st in n.body for b in ast.walk(st))]
+    cls_checks = [g for g in guards if ast.unparse(g.test) == "len(classes) > 1"]
+    cls_check = _one(cls_checks, f"class check in {where}")
+    if not (len(cls_check.body) == 1 and isinstance(cls_check.body[0], ast.Raise)
+            and ast.unparse(cls_check.body[0].exc.func) == "TypeError"):
+        raise TranslateError(f"{where}: the class check does not raise TypeError")
+    binds = [st for st in ast.walk(fn) if isinstance(st, ast.Assign) and len(st.targets) == 1
+             and ast.unparse(st.targets[0]) == "classes"]
+    b = _one(binds, f"binding of `classes` in {where}")
+    if ast.unparse(b.value) not in ("{d.__class__ for d in self.droplets}", "{type(d) for d in self.droplets}"):
+        raise TranslateError(f"{where}: classes = {ast.unparse(b.value)}")
+    rest = [g for g in guards if g is not cls_check]
+    if not rest:
+        return {"layout_guard": None}
+    g = _one(rest, f"further raising `if` in {where}")
+    t = g.test
+    ok = (isinstance(t, ast.Call) and isinstance(t.func, ast.Name) and t.func.id == "any" and len(t.args) == 1
+          and not t.keywords and isinstance(t.args[0], ast.GeneratorExp) and len(t.args[0].generators) == 1)
+    if ok:
+        ge = t.args[0]
+        comp = ge.generators[0]
+        var = comp.target.id if isinstance(comp.target, ast.Name) else None
+        ok = (var is not None and not comp.ifs and ast.unparse(comp.iter) in ("self.droplets", "self")
+              and isinstance(ge.elt, ast.Compare) and len(ge.elt.ops) == 1 and isinstance(ge.elt.ops[0], ast.NotEq)
+              and {ast.unparse(ge.elt.left), ast.unparse(ge.elt.comparators[0])} == {f"{var}.data.dtype", "d0.data.dtype"})
+    if not ok:
+        raise TranslateError(f"{where}: unrecognised check `if {ast.unparse(t)}: raise ...`")
+    if not (len(g.body) == 1 and isinstance(g.body[0], ast.Raise) and isinstance(g.body[0].exc, ast.Call)
+            and isinstance(g.body[0].exc.func, ast.Name)):
+        raise TranslateError(f"{where}: unexpected body of the layout check")
+    if g.lineno < cls_check.lineno:
+        raise TranslateError(f"{where}: the layout check precedes the class check")
+    # it must come before the rows are filled
+    rows = [st for st in ast.walk(fn) if isinstance(st, ast.Assign) and len(st.targets) == 1
+            and isinstance(st.targets[0], ast.Subscript) and ast.unparse(st.targets[0].value) == "result"]
+    if rows and g.lineno > min(r.lineno for r in rows):
+        raise TranslateError(f"{where}: the layout check comes after the rows are filled")
+    exc = g.body[0].exc.func.id
+    return {"layout_guard": {"TypeError": "EType", "ValueError": "EValue"}.get(exc, "EOther")}
+
+
 def _track_reader(fn: ast.FunctionDef, where: str) -> dict:
     cols = [n for n in ast.walk(fn) if isinstance(n, ast.Subscript) and ast.unparse(n.value) == "dataset"
             and _const_str(n.slice) is not None]
@@ -306,6 +354,7 @@ def facts() -> dict:
     d = _track_data(find_function(tr, ["DropletTrack", "data"], {}), "DropletTrack.data")
     rd = _track_reader(find_function(tr, ["DropletTrack", "_from_hdf_dataset"], {}), "DropletTrack._from_hdf_dataset")
     f.update(tr_time_w=d["time_w"], tr_time_first=d["time_first"], tr_time_r=rd["time_r"], tr_time_drop=rd["time_drop"])
+    f.update(tr_layout_guard=_track_guards(find_function(tr, ["DropletTrack", "data"], {}), "DropletTrack.data")["layout_guard"])
 
     # EmulsionTimeCourse
     fn = find_function(em, ["EmulsionTimeCourse", "to_file"], {})
@@ -379,6 +428,10 @@ def render(f: dict) -> str:
         if f[k] not in ("First", "Last"):
             raise TranslateError(f"{k}: {f[k]!r}")
         out.append(f"Definition g_{k} : member_sel := {f[k]}.")
+    g = f["tr_layout_guard"]
+    if g not in (None, "EType", "EValue", "EOther"):
+        raise TranslateError(f"tr_layout_guard: {g!r}")
+    out.append("Definition g_tr_layout_guard : option err := " + ("None" if g is None else f"Some {g}") + ".")
     return "\n".join(out) + "\n"
 
 
@@ -395,6 +448,7 @@ GOLDEN_FACTS = {
     "tr_key": "droplet_track", "tr_attr_w": "droplet_class", "tr_attr_r": "droplet_class",
     "tr_none_w": "None", "tr_none_r": "None", "tr_sel": "First",
     "tr_time_w": "time", "tr_time_r": "time", "tr_time_drop": "time", "tr_time_first": True,
+    "tr_layout_guard": "EType",
     "etc_prefix": "time_", "etc_width": 6, "etc_time_w": "time", "etc_time_r": "time", "etc_sorted": True,
     "tl_prefix": "track_", "tl_width": 6, "tl_sorted": True,
 }
